@@ -233,7 +233,7 @@ func c07Compile(src, name string) (res c07Compiled) {
 
 func c07ErrClass(err error) string {
 	s := err.Error()
-	for _, k := range []string{"register overflow", "too many local variables", "too long to jump", "too many constants", "too many upvalues", "jumps into the scope", "no loop to break", "syntax error", "cannot use '...'", "no visible label", "already defined"} {
+	for _, k := range []string{"register overflow", "too many local variables", "too long to jump", "control structure too long", "too many function expressions", "too many constants", "too many upvalues", "jumps into the scope", "no loop to break", "syntax error", "cannot use '...'", "no visible label", "already defined"} {
 		if strings.Contains(s, k) {
 			return k
 		}
@@ -445,7 +445,7 @@ func c07LessCase(a, b c07ID) bool {
 
 func c07SizeOf(id c07ID) int {
 	switch id.Family {
-	case "locals", "params", "upvalues", "consts", "moves", "nest", "longjump":
+	case "locals", "params", "upvalues", "consts", "moves", "nest", "longjump", "limits":
 		if len(id.P) == 2 {
 			return id.P[1]
 		}
